@@ -322,3 +322,53 @@ func H_C08_relogon() {
 		zz.Assert(live >= 1, "C09: after a second logon no timer armed with the period in force emits the TestRequest")
 	}
 }
+
+// H_C13_session: the goroutines a session starts end once the handler of its connection is stopped
+// (which is what the end of the connection does, C13), after any history of logons: each live timer
+// expires at most once more (the bounded settling time is one heartbeat period) and then no
+// goroutine started by the session remains. params: [role, history]
+// history 0: one logon; 1: logon, logout exchange, second logon; 2: logon, local Stop answered by
+// the peer, a further Logon from the peer; 3: logon, probe pending
+func H_C13_session() {
+	zz.TimerStub(true)
+	role, hist := zz.Param(0), zz.Param(1)
+	zz.Class("session/role=" + strconv.Itoa(role) + "/history=" + strconv.Itoa(hist))
+	if hist == 1 {
+		fxRelog = 1
+	}
+	f := loggedOnHB(role, 30)
+	zz.Assume(f.s.IsLogged())
+	_ = f.h.VerifOut()
+	zz.Yield()
+	peer, me := "CLI", "SRV"
+	if role == 1 {
+		peer, me = "SRV", "CLI"
+	}
+	switch hist {
+	case 2:
+		_ = f.s.Stop()
+		lo := fixgen.CreateLogout()
+		setHdr(lo.Header(), peer, me, 2)
+		_ = f.serve(wire(lo))
+		_ = f.logon(peer, me, 3, 30)
+		_ = f.h.VerifOut()
+		zz.Yield()
+	case 3:
+		zz.FireTimer(0)
+		zz.Yield()
+		_ = f.h.VerifOut()
+	}
+	f.h.Stop() // the connection ended
+	zz.Yield()
+	for round := 0; round < 2; round++ {
+		for i := 0; i < zz.Timers(); i++ {
+			if zz.TimerWaiting(i) {
+				zz.FireTimer(i)
+				zz.Yield()
+			}
+		}
+	}
+	zz.Reach("settled")
+	zz.Assert(zz.Goroutines() == 0, "C13: a goroutine started by the session remains after its connection ended and every timer expired once more")
+	zz.Assert(len(f.h.VerifOut()) == 0, "C13: a session whose connection ended still hands messages to the outbound queue")
+}
